@@ -280,23 +280,9 @@ def to_coq(case):
         return "CXdec " + coq_bytes(b)
     if k == "uenc":
         s = case["s"]
-        ents = []
-        enc_parts = []
-        for run in dict.fromkeys(_runs(s)):
-            try:
-                b64 = imap4.modified_base64(run)
-            except EXPECTED_EXC:
-                return None
-            ents.append("(" + coq_cps(run) + ", " + coq_bytes(b64) + ")")
-        try:
-            enc = imap4.encoder(s)[0]
-        except EXPECTED_EXC:
+        if any(0xD800 <= ord(c) <= 0xDFFF for c in s):
             return None
-        td = _dec_table(enc)
-        if td is None:
-            return None
-        te = "[" + "; ".join(ents) + "]" if ents else "(@nil (list N * list N))"
-        return f"CUenc {te} {td} {coq_cps(s)}"
+        return f"CUenc {coq_cps(s)}"
     if k == "udec":
         b = bytes.fromhex(case["hex"])
         td = _dec_table(b)
@@ -344,10 +330,11 @@ SPEC = Spec(
         "translator translate/py2coq.py + translate/c41.py (fail-closed skeleton match; comparison of a bytes item "
         "with a str literal is False; validated by this correspondence run)",
         "hand-written models of the xtext loop, xtext_decode, imap4.encoder and imap4.decoder (coq/C41/Model.v)",
-        "the base64-of-UTF-16BE layer (modified_base64 / modified_unbase64 = CPython binascii, utf-16-be and utf-7 "
-        "codecs) is an oracle: its results are passed to the model as tables; the three facts the theorems assume "
-        "(round trip on non-empty runs, modified BASE64 alphabet, non-empty output) are checked on every case, and "
-        "the encoded form is compared with an RFC 3501 reference written out bit by bit in the harness",
+        "coq/C41/B64.v (UTF-16, bits, 6-bit groups, modified BASE64 alphabet) is a transcription of RFC 3501 5.1.3 / "
+        "RFC 2152; it is tied to CPython's binascii / utf-16-be / utf-7 codecs by this correspondence run (encoder "
+        "output and decoder(encoder(s)) on every encoding case) and to a second bit-level reference in the harness; "
+        "for raw decoding cases modified_unbase64 is an oracle table (CPython's error rules for malformed shift "
+        "sequences are not modelled)",
     ],
     assumptions=["xtext input is bytes (octets < 256); utf-7 input is a str without lone surrogates",
                  "xtext_decode is modelled on '+' followed by hexadecimal digits only (int(_, 16) also accepts signs, "
